@@ -1,6 +1,7 @@
 package main
 
 import (
+	"strings"
 	"encoding/json"
 	"math/rand"
 	"reflect"
@@ -31,6 +32,9 @@ func genMatch(r *rand.Rand, n int, tier string) []Case {
 		pat := pg.derive(data, true)
 		if r.Intn(4) == 0 {
 			pat = g.mutate(pat)
+		}
+		if !malformed && r.Intn(40) == 0 {
+			pat = map[string]interface{}{} // the empty pattern: matches every map, binds nothing
 		}
 		bs := map[string]interface{}{}
 		if r.Intn(4) == 0 {
@@ -87,13 +91,28 @@ func matchOnce(pat, data interface{}, bs map[string]interface{}) (res map[string
 			res["panic"] = true
 		}
 	}()
-	bss, err := core.Match(nil, pat, data, core.Bindings(bs))
+	var bss []core.Bindings
+	var err error
+	if bs == nil {
+		bss, err = core.Matches(nil, pat, data) // the entry point without initial bindings
+	} else {
+		bss, err = core.Match(nil, pat, data, core.Bindings(bs))
+	}
 	res["err"] = err != nil
 	out := make([]interface{}, 0, len(bss))
 	for _, b := range bss {
-		out = append(out, map[string]interface{}(b))
+		out = append(out, deepCopy(map[string]interface{}(b)))
 	}
 	res["bss"] = out
+	// The returned binding sets belong to the caller, and the engine does write to them
+	// (EvalRuleCondition.Do adds ?event, ?location, ?ruleId to the bindings of a `when` match): write
+	// to every one of them.  If a result aliases the caller's initial bindings or anything the matcher
+	// keeps, the "unmodified" check or a later match shows it.
+	for _, b := range bss {
+		if b != nil {
+			b["?__caller"] = true
+		}
+	}
 	return res
 }
 
@@ -108,8 +127,41 @@ func execMatchOne(c Case) {
 	for k := 0; k < 4; k++ {
 		results = append(results, matchOnce(pat, data, bs))
 	}
+	if len(bs) == 0 {
+		results = append(results, matchOnce(pat, data, nil))
+	}
 	c["results"] = results
 	c["unmodified"] = deepEqual(p0, pat) && deepEqual(d0, data) && deepEqual(b0, bs)
+	// "every returned binding set is a genuine match": the pattern with a returned binding set
+	// substituted (Bindings.Bind, as the `and` of a query does) matches the same data and binds
+	// nothing more
+	if !boolean(c["child"]) && !hasPropVar(pat) { // (Bind substitutes values, not property names)
+		bad := 0
+		first, _ := results[0].(map[string]interface{})
+		for _, bi := range list(first["bss"]) {
+			b := core.Bindings(deepCopy(bi).(map[string]interface{}))
+			func() {
+				defer func() {
+					if x := recover(); x != nil {
+						bad++
+					}
+				}()
+				p2 := b.Bind(nil, deepCopy(pat))
+				bss, err := core.Match(nil, p2, data, core.Bindings{})
+				if err != nil || len(bss) == 0 {
+					bad++
+					return
+				}
+				for _, b2 := range bss {
+					if len(b2) != 0 {
+						bad++
+						return
+					}
+				}
+			}()
+		}
+		c["rebind_bad"] = bad
+	}
 	// Go-typed twins (core.Map, []string, []core.Map, ...): must give the same
 	// answer as the JSON forms and must not be modified (type-sensitively)
 	salt := int(num(c["typed_salt"]))
@@ -217,4 +269,22 @@ func execMatch(cases []Case) []Case {
 		execMatchOne(c)
 	}
 	return cases
+}
+
+func hasPropVar(v interface{}) bool {
+	switch x := v.(type) {
+	case map[string]interface{}:
+		for k, y := range x {
+			if strings.HasPrefix(k, "?") || hasPropVar(y) {
+				return true
+			}
+		}
+	case []interface{}:
+		for _, y := range x {
+			if hasPropVar(y) {
+				return true
+			}
+		}
+	}
+	return false
 }
